@@ -92,6 +92,7 @@ def execOp (op : String) (a : List Int) : Option (Option String) :=
   | "c11.term.next", [y, i, n] => some <| ((termR (termFromIndex y i)).bind fun x => termR (termNext x.1 x.2 n)).map fmt2
   | "scmonth.idx", [y, k] => some <| (scMonthFromIndex y k).map scFmt
   | "scmonth.next", [y, k, n] => some <| ((scMonthFromIndex y k).bind fun x => scMonthNext x.1 x.2 n).map scFmt
+  | "c08.scm", [y, k, n] => some <| ((scMonthFromIndex y k).bind fun x => scMonthNext x.1 x.2 n).map fun r => s!"{r.2}/{scIndexInYear r.2} {r.1}"
   | "c11.sfest.idx", [y, i] => some <| if sfestOk y i then some (fmt2 (y, i)) else none
   | "c11.sfest.next", [y, i, n] => some <| if sfestOk y i then (sfestNext y i n).map fmt2 else none
   | "c11.lfest.next", [y, i, n] => some <| if lfestOk y i then (lfestNext y i n).map fmt2 else none
@@ -137,6 +138,7 @@ def specOp (op : String) (a : List Int) : Option (Option String) :=
   | "c11.term.next", [y, i, n] => some <| ((termSpecAt y i).bind fun x => Step.lin 24 solarPartOk x.1 x.2 n).map fmt2
   | "scmonth.idx", [y, k] => some <| (scSpecAt y k).map scFmtSpec
   | "scmonth.next", [y, k, n] => some <| ((scSpecAt y k).bind fun x => scSpecNext x.1 x.2 n).map scFmtSpec
+  | "c08.scm", [y, k, n] => some <| ((scSpecAt y k).bind fun x => scSpecNext x.1 x.2 n).map fun r => s!"{r.2}/{Step.cyc 12 (r.2 % 12) (-2)} {r.1}"
   | "c11.sfest.idx", [y, i] => some <| if sfestOk y i then some (fmt2 (y, i)) else none
   | "c11.sfest.next", [y, i, n] => some <| if sfestOk y i then (Step.lin 10 sfestOk y i n).map fmt2 else none
   | "c11.lfest.next", [y, i, n] => some <| if lfestOk y i then (Step.lin 13 lfestOk y i n).map fmt2 else none
@@ -176,6 +178,25 @@ def bogus (first : List Nat) (k : Nat) : List Nat :=
   | 3 => 63 :: first
   | _ => first ++ first
 
+/-- byte length of the UTF-8 character that starts with byte b -/
+def utf8Len (b : Nat) : Nat := if b < 128 then 1 else if b < 224 then 2 else if b < 240 then 3 else 4
+
+/-- number of characters of a UTF-8 byte string -/
+def utf8Count : Nat → List Nat → Nat
+  | 0, _ => 0
+  | _, [] => 0
+  | f+1, b :: bs => 1 + utf8Count f (bs.drop (utf8Len b - 1))
+
+/-- first character of name i + the rest of name j (i ≠ j, both at least two characters, tables up to 64 names) -/
+def recombinations (names : List (List Nat)) : List (Nat × Nat × List Nat) :=
+  if names.length > 64 then [] else
+  (List.range names.length).flatMap fun i => (List.range names.length).filterMap fun j =>
+    if i = j then none else
+    let a := names.getD i []
+    let b := names.getD j []
+    if utf8Count a.length a < 2 ∨ utf8Count b.length b < 2 then none else
+    some (i, j, a.take (utf8Len (a.headD 0)) ++ b.drop (utf8Len (b.headD 0)))
+
 /-- index <-> name: model = first match in the re-extracted name list; spec = the identity / refusal -/
 def enumNames (spec : Bool) (out : IO.FS.Stream) : IO Unit := do
   for e in C11Gen.nameTables do
@@ -194,6 +215,9 @@ def enumNames (spec : Bool) (out : IO.FS.Stream) : IO Unit := do
       for k in [0:5] do
         let r := if spec then REFUSED else optS ((fromName names (bogus (names.headD []) k)).map toString)
         buf := buf ++ s!"{id} unknown {k} {r}\n"
+      for (ri, rj, probe) in recombinations names do
+        -- model and spec: the probe is a name exactly when it occurs in the table (first occurrence)
+        buf := buf ++ s!"{id} recomb {ri} {rj} {optS ((fromName names probe).map toString)}\n"
       out.putStr buf
 
 def enumUnits (spec : Bool) (args : List String) (out : IO.FS.Stream) : IO Unit := do
